@@ -10,6 +10,7 @@ import JulianVerif.Lemmas.TextRoundTrip
 import JulianVerif.Lemmas.ShapedInst
 import JulianVerif.Lemmas.Grammar
 import JulianVerif.Lemmas.GenLib
+import JulianVerif.Lemmas.GenText
 set_option linter.unusedSimpArgs false
 namespace JV.C13
 open JV Spec
@@ -180,5 +181,31 @@ theorem generated_display (d : Date) (m : Month) (w : Weekday) (alt : Bool) :
     ∧ Gen.monthFmt m alt = (if alt then m.shortName else m.name).toList
     ∧ Gen.weekdayFmt w alt = (if alt then w.shortName else w.name).toList :=
   ⟨(Gen.dateFmt_eq d).1, (Gen.dateFmt_eq d).2, Gen.monthFmt_eq m alt, Gen.weekdayFmt_eq w alt⟩
+
+/-- the date parser **as generated from inner.rs / lib.rs** (DESIGN.md 0.9): for every calendar a caller can
+hold and every text, the generated `Calendar::parse_date` cannot fault and returns what the model's
+`parseDate` returns — the function the theorems above are about —, and each generated `DateParser` step
+(`parse_int`, `parse_uint`, `scan_char`, `parse_day_in_year`; a `&mut self` method returns its value with
+the text that is left) is the model's step -/
+theorem generated_parser (c : Calendar) (hc : WF c) (s : List Char) :
+    Gen.calendarParseDate c s = some (c.parseDate s)
+    ∧ Gen.toHand (Gen.dateParserParseInt s) = parseInt s
+    ∧ Gen.toHand (Gen.dateParserParseUint s) = parseUInt s
+    ∧ (∀ ch, Gen.toHand (Gen.dateParserScanChar s ch) = (scanChar ch s).map (fun r => ((), r)))
+    ∧ Gen.toHand (Gen.dateParserParseDayInYear s) = parseDayInYear s :=
+  ⟨Gen.calendarParseDate_eq c hc s, Gen.dateParserParseInt_eq s, Gen.dateParserParseUint_eq s,
+    Gen.dateParserScanChar_eq s, Gen.dateParserParseDayInYear_eq s⟩
+
+/-- the premises are met and the generated parser computes: 1582-10-15 in the 1582 calendar, a skipped
+date, a lone sign -/
+theorem generated_parser_examples :
+    (Gen.calendarParseDate Calendar.reform1582 "1582-10-15".toList).map (·.toOption.map (·.jdn)) = some (some 2299161)
+    ∧ (Gen.calendarParseDate Calendar.reform1582 "1582-10-10".toList).map
+        (fun r => match r with | .error e => some e | .ok _ => none)
+        = some (some (.invalidDate (.skippedDate 1582 .october 10)))
+    ∧ (Gen.calendarParseDate Calendar.gregorian "-".toList).map
+        (fun r => match r with | .error e => some e | .ok _ => none) = some (some .parseInt)
+    ∧ (Gen.calendarParseDate Calendar.gregorian "+2023-110".toList).map (·.toOption.map (·.jdn)) = some (some 2460055) := by
+  decide +kernel
 
 end JV.C13
